@@ -58,14 +58,28 @@ def grid(c, kind):
 
 
 def run_vectors(c, calls, label):
-    traces = c.exec_vectors(calls, label, chunks=16 if len(calls) > 8000 else 4)
+    """execute and validate; unless the vectors set the thread mode themselves, every chunk runs under a different
+    (mostly non-default) thread mode: operations the statements define without reference to the mode must not depend on it"""
+    nch = 16 if len(calls) > 8000 else 4
+    if any(e.get('ev') == 'set' for e in calls[:2000:50]) or (calls and calls[0].get('ev') == 'set'):
+        traces = c.exec_vectors(calls, label, chunks=nch)
+    else:
+        per = (len(calls) + nch - 1) // nch
+        traces = []
+        for k in range(nch):
+            part = calls[k * per:(k + 1) * per]
+            if part:
+                traces += c.exec_vectors([{'ev': 'set', 't': 1, 'mode': MODES[(k * 3 + 1) % 8]}] + part, '%s_%d' % (label, k), chunks=1)
     c.validate_many(traces, 'G:' + label)
 
 
-def g_bounds(c, ops, kind='bin', with_modes=False):
-    """all pairs of boundary-class operands; the operation rotates over `ops` so that every op meets every class"""
+def g_bounds(c, ops, kind='bin', with_modes=False, stride=1):
+    """all pairs of boundary-class operands; the operation rotates over `ops` so that every op meets every class
+    (stride > 1: every stride-th pair, offset by the seed - used where the full product is too slow for the quick tier)"""
     calls = []
     vecs = grid(c, 'bounds')
+    if stride > 1:
+        vecs = sorted(vecs, key=lambda v: json.dumps(v, sort_keys=True))[c.seed % stride::stride]
     if with_modes:
         per = (len(vecs) + 7) // 8
     for i, vv in enumerate(vecs):
@@ -73,7 +87,7 @@ def g_bounds(c, ops, kind='bin', with_modes=False):
             calls.append({'ev': 'set', 't': 1, 'mode': MODES[i // per]})
         op = ops[(i + i // len(ops)) % len(ops)]
         if kind == 'bin':
-            calls.append({'ev': 'bin', 't': 1, 'op': op, 'x': vv['x'], 'y': vv['y'], 'xt': 'dec', 'yt': 'dec', 'n': 0, 'acc': 0, 'form': i % 4})
+            calls.append({'ev': 'bin', 't': 1, 'op': op, 'x': vv['x'], 'y': vv['y'], 'xt': 'dec', 'yt': 'dec', 'n': [0, 18, 2, 9][(i // 7) % 4], 'acc': 0, 'form': i % 4})
         else:
             calls.append({'ev': 'cmp', 't': 1, 'op': op, 'x': vv['x'], 'y': vv['y'], 'xt': 'dec', 'yt': 'dec'})
     run_vectors(c, calls, 'bounds')
@@ -309,6 +323,7 @@ def plan_C04(c):
     c.mc('MC_Refine', cfg='MC_Refine_ok' if c.tier == 'quick' else 'MC_Refine_ok_full')
     c.mc('MC_Refine', cfg='MC_Refine_trunc_first', expect='violation')      # the double rounding of finding F2 must be rejected
     g_small(c, ['div_rounded', 'mul_rounded', 'quantize'])
+    g_bounds(c, ['div_rounded', 'mul_rounded', 'quantize'], with_modes=True, stride=1 if c.tier != 'quick' else 3)
     g_maxquot(c, 'div_rounded')
     g_knuth(c, 'div_rounded')
     g_intforms(c, ['div_rounded', 'quantize'], with_modes=c.tier != 'quick')
@@ -342,6 +357,15 @@ def plan_C05(c):
                 coef = MAXC
             for op in ('round', 'checked_round'):
                 calls.append({'ev': 'un', 't': 1, 'op': op, 'x': jdec((sg * coef, f)), 'n': f - sh})
+    # far shifts: n below f - 38 down to the ends of the i8 range, where the value is less than half a unit of 10^-n
+    for mode in MODES:
+        calls.append({'ev': 'set', 't': 1, 'mode': mode})
+        for f in (0, 1, 18):
+            for n in (f - 38, f - 39, f - 40, -100, -126, -127, -128, 127, 126, f, f - 1):
+                for coef in (0, 1, 5, 10**18, 4 * 10**37, MAXC):
+                    for sg in ((1, -1) if coef else (1,)):
+                        for op in ('round', 'checked_round'):
+                            calls.append({'ev': 'un', 't': 1, 'op': op, 'x': jdec((sg * coef, f)), 'n': n})
     run_vectors_with_modes(c, calls, 'roundgrid')
     v(c, 'c05', 6000, 200000)
 
@@ -447,6 +471,17 @@ def plan_C14(c):
         if i % 3 == 0 and coef + 1 <= MAXC:
             calls.append({'ev': 'toint', 't': 1, 'ty': ty, 'x': jdec((sg * (coef + 1), f))})
     run_vectors(c, calls, 'ints')
+    # From<int> / TryFrom<u128>: every power of two with its neighbours inside each type's range, and the type bounds
+    calls = []
+    for t in INT_TYPES10:
+        lo, hi = (0, 2**128 - 1) if t == 'u128' else (-2**127, 2**127 - 1) if t == 'i128' else INT_RANGE[t]
+        vals = {lo, hi, lo + 1, hi - 1, 0, 1, -1}
+        for k in range(0, 129):
+            for d in (-1, 0, 1):
+                vals |= {2**k + d, -(2**k) + d}
+        for val in sorted(x for x in vals if lo <= x <= hi):
+            calls.append({'ev': 'fromint', 't': 1, 'ty': t, 'v': jnum(val)})
+    run_vectors(c, calls, 'fromints')
     g_operands(c, lambda x, i: [{'ev': 'toint', 't': 1, 'ty': INT_TYPES10[i % 10], 'x': x}])
     v(c, 'c14', 6000, 200000)
 
